@@ -101,3 +101,238 @@ theorem contains_dot (b : Nat) : ([46] : List Nat).contains b = (b == cDot) := b
   cases h1 : (b == 46) <;> simp [List.contains, List.elem, cDot, h1]
 
 end BigDec
+
+namespace BigDec
+open Parse Spec.Numeral
+
+/-- plain digit accumulation succeeds exactly on all-digit strings -/
+theorem accPlain_eq (bs : List Nat) (acc : Nat) :
+    accPlain bs acc = if bs.all Spec.Numeral.isDigit then some (foldDigits (bs.map (· - 48)) acc) else none := by
+  induction bs generalizing acc with
+  | nil => simp [accPlain, foldDigits]
+  | cons b bs ih =>
+    unfold accPlain
+    by_cases hd : Parse.isDigit b = true
+    · have hd' : Spec.Numeral.isDigit b = true := hd
+      simp only [hd, if_true, ih, List.all_cons, hd', Bool.true_and, List.map_cons]
+      split <;> simp [foldDigits]
+    · have hd' : Spec.Numeral.isDigit b = false := by simpa [isDigit_eq] using hd
+      simp [hd, hd']
+
+theorem segDigits_of_all_digits (bs : List Nat) (h : bs.all Spec.Numeral.isDigit = true) :
+    segDigits bs = some (bs.map (· - 48)) := by
+  induction bs with
+  | nil => rfl
+  | cons b bs ih =>
+    simp only [List.all_cons, Bool.and_eq_true] at h
+    have hb := h.1
+    have hne : (b == 95) = false := by
+      unfold Spec.Numeral.isDigit at hb
+      simp only [Bool.and_eq_true, decide_eq_true_eq] at hb
+      have : b ≠ 95 := by omega
+      simpa using this
+    unfold segDigits
+    simp [hne, hb, ih h.2]
+
+theorem takeSign_cases (s : List Nat) :
+    (∃ r, s = 45 :: r ∧ takeSign s = (true, r)) ∨ (∃ r, s = 43 :: r ∧ takeSign s = (false, r)) ∨
+    ((∀ r, s ≠ 45 :: r) ∧ (∀ r, s ≠ 43 :: r) ∧ takeSign s = (false, s)) := by
+  match s with
+  | [] => right; right; exact ⟨by simp, by simp, rfl⟩
+  | b :: r =>
+    by_cases h1 : b = 45
+    · subst h1; left; exact ⟨r, rfl, rfl⟩
+    · by_cases h2 : b = 43
+      · subst h2; right; left; exact ⟨r, rfl, rfl⟩
+      · right; right
+        refine ⟨by intro r' h; injection h with h; exact h1 h, by intro r' h; injection h with h; exact h2 h, ?_⟩
+        unfold takeSign
+        split
+        · rename_i heq; injection heq with h; exact absurd h h1
+        · rename_i heq; injection heq with h; exact absurd h h2
+        · rfl
+
+/-- `i128::from_str` is: optional sign, digits only, at least one, then the range check -/
+theorem parseI128_eq (s : List Nat) :
+    parseI128 s = (exponentValue s).bind
+      (fun v => if -(2 ^ 127 : Int) ≤ v ∧ v < (2 ^ 127 : Int) then some v else none) := by
+  have core : ∀ (neg : Bool) (body : List Nat),
+      (match digitsValue body with
+        | none => (none : Option Int)
+        | some v => if -(2 ^ 127 : Int) ≤ (if neg then -(v : Int) else v) ∧ (if neg then -(v : Int) else (v:Int)) < (2 ^ 127 : Int)
+            then some (if neg then -(v : Int) else v) else none) =
+      (if body.isEmpty then none
+        else match segDigits body with
+          | some ds => if body.all Spec.Numeral.isDigit then some (if neg then -(digitsToNat ds : Int) else digitsToNat ds) else none
+          | none => none).bind (fun v => if -(2 ^ 127 : Int) ≤ v ∧ v < (2 ^ 127 : Int) then some v else none) := by
+    intro neg body
+    cases body with
+    | nil => simp [digitsValue]
+    | cons b bs =>
+      simp only [digitsValue, accPlain_eq, List.isEmpty_cons, Bool.false_eq_true, if_false]
+      by_cases hall : (b :: bs).all Spec.Numeral.isDigit = true
+      · rw [if_pos hall, segDigits_of_all_digits _ hall]
+        simp only [hall, if_true, Option.bind_some, digitsToNat_eq]
+      · rw [if_neg hall]
+        cases segDigits (b :: bs) <;> simp [hall]
+  unfold parseI128 exponentValue
+  rcases takeSign_cases s with ⟨r, hs, ht⟩ | ⟨r, hs, ht⟩ | ⟨h1, h2, ht⟩
+  · subst hs; rw [ht]; simp only [cMinus, if_true]; exact core true r
+  · subst hs; rw [ht]
+    have : ¬ (43 : Nat) = cMinus := by decide
+    simp only [this, if_false, cPlus, if_true]; exact core false r
+  · rw [ht]
+    cases s with
+    | nil => simp
+    | cons b r =>
+      have hb1 : ¬ b = cMinus := by intro h; exact h1 r (by rw [h]; rfl)
+      have hb2 : ¬ b = cPlus := by intro h; exact h2 r (by rw [h]; rfl)
+      simp only [hb1, hb2, if_false]
+      exact core false (b :: r)
+
+end BigDec
+
+namespace BigDec
+open Parse Spec.Numeral
+
+/-- what the `BigUint` parser computes on a string that does not begin with `+` -/
+def uintCore (s : List Nat) : Option Nat :=
+  match s with
+  | [] => none
+  | c :: _ => if Spec.Numeral.isDigit c then accDigits s 0 else none
+
+theorem accDigits_nondigit (c : Nat) (r : List Nat) (acc : Nat)
+    (h1 : c ≠ 95) (h2 : Spec.Numeral.isDigit c = false) : accDigits (c :: r) acc = none := by
+  unfold accDigits
+  have : Parse.isDigit c = false := h2
+  simp [cUnder, h1, this]
+
+theorem isDigit_95 : Spec.Numeral.isDigit 95 = false := by decide
+theorem isDigit_43 : Spec.Numeral.isDigit 43 = false := by decide
+theorem isDigit_45 : Spec.Numeral.isDigit 45 = false := by decide
+
+theorem parseBigUint_nosign (s : List Nat) (h : ∀ r, s ≠ 43 :: r) : parseBigUint s = uintCore s := by
+  cases s with
+  | nil => simp [parseBigUint, uintCore]
+  | cons c r =>
+    have hc : ¬ c = cPlus := by intro hc; exact h r (by rw [hc]; rfl)
+    unfold parseBigUint uintCore
+    simp only [hc, if_false]
+    by_cases hu : c = cUnder
+    · subst hu; simp [cUnder, isDigit_95]
+    · simp only [hu, if_false]
+      by_cases hd : Spec.Numeral.isDigit c = true
+      · simp [hd]
+      · have hd' : Spec.Numeral.isDigit c = false := by simpa using hd
+        rw [accDigits_nondigit c r 0 hu hd']; simp [hd']
+
+/-- a string starting with a sign character never parses as an unsigned body -/
+theorem uintCore_sign (c : Nat) (r : List Nat) (h : c = 43 ∨ c = 45) : uintCore (c :: r) = none := by
+  rcases h with h | h <;> subst h <;> simp [uintCore, isDigit_43, isDigit_45]
+
+theorem parseBigUint_plus (r : List Nat) : parseBigUint (43 :: r) = uintCore r := by
+  cases r with
+  | nil => simp [parseBigUint, uintCore, cPlus]
+  | cons t tl =>
+    by_cases ht : t = 43
+    · subst ht
+      rw [uintCore_sign 43 tl (Or.inl rfl)]
+      unfold parseBigUint
+      simp only [cPlus, if_true]
+      have : ¬ (43 : Nat) = cUnder := by decide
+      simp only [this, if_false]
+      exact accDigits_nondigit 43 _ 0 (by decide) isDigit_43
+    · have h' : ∀ r', (t :: tl) ≠ 43 :: r' := by intro r' h; injection h with h; exact ht h
+      rw [← parseBigUint_nosign _ h']
+      conv => lhs; unfold parseBigUint
+      simp only [cPlus, if_true, ht, if_false]
+      conv => rhs; unfold parseBigUint
+      simp only [cPlus, ht, if_false]
+
+/-- `BigInt::from_str_radix(_, 10)`: one optional sign, then an unsigned body that starts with a digit -/
+theorem parseBigInt_eq (d : List Nat) :
+    parseBigInt d = (uintCore (takeSign d).2).map (fun n => if (takeSign d).1 then -(n : Int) else (n : Int)) := by
+  rcases takeSign_cases d with ⟨r, hs, ht⟩ | ⟨r, hs, ht⟩ | ⟨h1, h2, ht⟩
+  · subst hs; rw [ht]
+    unfold parseBigInt
+    simp only [cMinus, if_true]
+    cases r with
+    | nil => simp [parseBigUint, uintCore]
+    | cons t tl =>
+      by_cases htp : t = 43
+      · subst htp
+        simp only [cPlus, if_true]
+        rw [uintCore_sign 43 tl (Or.inl rfl)]
+        have hn : ∀ r', (45 :: 43 :: tl) ≠ 43 :: r' := by intro r' h; injection h with h; omega
+        rw [parseBigUint_nosign _ hn, uintCore_sign 45 _ (Or.inr rfl)]
+      · simp only [cPlus, htp, if_false]
+        have hn : ∀ r', (t :: tl) ≠ 43 :: r' := by intro r' h; injection h with h; exact htp h
+        rw [parseBigUint_nosign _ hn]
+  · subst hs; rw [ht]
+    unfold parseBigInt
+    have : ¬ (43 : Nat) = cMinus := by decide
+    simp only [this, if_false, parseBigUint_plus]
+    rfl
+  · rw [ht]
+    cases d with
+    | nil => simp [parseBigInt, parseBigUint, uintCore]
+    | cons b r =>
+      have hb1 : ¬ b = cMinus := by intro h; exact h1 r (by rw [h]; rfl)
+      unfold parseBigInt
+      simp only [hb1, if_false, parseBigUint_nosign _ h2]
+      rfl
+
+end BigDec
+
+namespace BigDec
+open Parse Spec.Numeral
+
+def NoSign (s : List Nat) : Prop := (∀ r, s ≠ 45 :: r) ∧ (∀ r, s ≠ 43 :: r)
+
+theorem takeSign_noSign (s : List Nat) (h : NoSign s) : takeSign s = (false, s) := by
+  rcases takeSign_cases s with ⟨r, hs, _⟩ | ⟨r, hs, _⟩ | ⟨_, _, ht⟩
+  · exact absurd hs (h.1 r)
+  · exact absurd hs (h.2 r)
+  · exact ht
+
+/-- the model after sign removal: range check on the scale, then the unsigned body -/
+def tailModel (neg : Bool) (d : List Nat) (o e : Int) : Option Dec :=
+  if o - e < -(2 ^ 63 : Int) ∨ o - e ≥ (2 ^ 63 : Int) then none
+  else (uintCore d).map (fun n => ⟨if neg then -(n : Int) else (n : Int), o - e⟩)
+
+/-- the specification after sign removal and the split at the point -/
+def tailSpec (neg : Bool) (ip fp : List Nat) (e : Int) : Option Dec :=
+  match ip ++ fp with
+  | [] => none
+  | c :: _ =>
+    if !Spec.Numeral.isDigit c then none else
+    match segDigits ip, segDigits fp with
+    | some di, some df =>
+      let scale : Int := (df.length : Int) - e
+      if scale < -(2 ^ 63 : Int) ∨ scale ≥ (2 ^ 63 : Int) then none
+      else some ⟨(if neg then -1 else 1) * (digitsToNat (di ++ df) : Int), scale⟩
+    | _, _ => none
+
+theorem tail_eq (neg : Bool) (ip fp : List Nat) (e : Int) :
+    tailModel neg (ip ++ fp) ((fp.filter (· != cUnder)).length : Int) e = tailSpec neg ip fp e := by
+  unfold tailModel tailSpec uintCore
+  cases h : ip ++ fp with
+  | nil => simp
+  | cons c r =>
+    simp only
+    by_cases hd : Spec.Numeral.isDigit c = true
+    · simp only [hd, if_true, Bool.not_true, Bool.false_eq_true, if_false]
+      rw [← h, accDigits_eq, segDigits_append]
+      cases h1 : segDigits ip with
+      | none => simp
+      | some di =>
+        cases h2 : segDigits fp with
+        | none => simp
+        | some df =>
+          simp only [Option.bind_some, Option.map_some, filter_count_eq fp df h2]
+          rw [digitsToNat_eq]
+          cases neg <;> simp
+    · have : Spec.Numeral.isDigit c = false := by simpa using hd
+      simp [this]
+
+end BigDec
